@@ -101,11 +101,77 @@ struct Case {
     bool                 raw_set{false};
 };
 
+// templates built around the width of the scanner's offset / counter fields (8 and 16 bit) and around bracket edge cases
+Units boundary_template(jm::Entropy &e, std::string *ops) {
+    std::string t;
+    auto        rep = [](const std::string &x, unsigned n) {
+        std::string o;
+        for (unsigned i = 0; i < n; ++i) {
+            o += x;
+        }
+        return o;
+    };
+    switch (e.below(7)) {
+        case 0: { // inline if with 254..258 sub tags in one attribute
+            unsigned k = 254 + e.below(5);
+            t          = std::string("{if case=\"") + (e.chance(50) ? "1" : "0") + "\" true=\"" + rep("{var:a}", k) + "\" false=\"{var:b}" + (e.chance(50) ? "{var:a}" : "") + "\"}";
+            if (ops) *ops += "boundary:inline-if-subtags=" + std::to_string(k) + ";";
+            break;
+        }
+        case 1: { // variable names around 255 / 511 units
+            unsigned L = (e.chance(50) ? 250 : 508) + e.below(10);
+            t          = "x{var:" + rep("n", L) + "}y{raw:" + rep("m", L) + "}z";
+            if (ops) *ops += "boundary:name-length=" + std::to_string(L) + ";";
+            break;
+        }
+        case 2: { // loop attributes further than 255 units from the tag start
+            unsigned L = 245 + e.below(20);
+            t          = "<loop set=\"" + rep("p", L) + "\" value=\"v\">{var:v}</loop><loop group=\"" + rep("g", L) + "\" value=\"w\" set=\"l\">{var:w}</loop>";
+            if (ops) *ops += "boundary:loop-attribute-offset=" + std::to_string(L) + ";";
+            break;
+        }
+        case 3: { // inline if longer than 65535 units
+            unsigned L = 65500 + e.below(80);
+            t          = "{if case=\"1\" true=\"" + rep("t", L) + "{var:a}\" false=\"{var:b}\"}tail";
+            if (ops) *ops += "boundary:inline-if-length=" + std::to_string(L) + ";";
+            break;
+        }
+        case 4: { // nesting depth around 255
+            unsigned d = 250 + e.below(10);
+            t          = rep("<if case=\"1\">", d) + "<loop value=\"v\">{var:v}</loop>" + rep("</if>", d);
+            if (ops) *ops += "boundary:if-depth=" + std::to_string(d) + ";";
+            break;
+        }
+        case 5: { // more than ten sub tags in a super variable
+            unsigned k = 9 + e.below(5);
+            t          = "{svar:p" + rep(", {var:a}", k) + "}";
+            if (ops) *ops += "boundary:svar-subtags=" + std::to_string(k) + ";";
+            break;
+        }
+        default: { // bracket edge cases in names, also as the last thing in the template
+            static const char *names[] = {"]", "a]", "[", "[]", "a[", "a[]", "a[b", "]]", "a[b]]", "[a]", "a][", "k1[", "0]", "a[b][", "][", "a[]]"};
+            t = std::string(e.chance(50) ? "x" : "") + (e.chance(50) ? "{var:" : "{raw:") + names[e.below(16)] + "}";
+            if (e.chance(40)) {
+                t = "{math:{var:" + std::string(names[e.below(16)]) + "}+1}";
+            }
+            if (ops) *ops += "boundary:bracket-name;";
+        }
+    }
+    Units u;
+    for (unsigned char ch : t) {
+        u.push_back(ch);
+    }
+    return u;
+}
+
 Units make_template(const Case &c, std::string *ops = nullptr) {
     if (c.raw_set) {
         return c.raw;
     }
     jm::Entropy e(c.bytes);
+    if (e.chance(7)) {
+        return boundary_template(e, ops);
+    }
     Units       u = tgen::random_template_text(e, c.value_id);
     unsigned    n = e.below(7);
     for (unsigned i = 0; i < n && !u.empty(); ++i) {
